@@ -94,6 +94,21 @@ fn main() {
             ct_marker_end();
             tag.to_vec()
         }
+        // the same MAC fed in pieces of 16, 48 and the rest (call boundaries after 1 and 4 blocks, public)
+        "poly1305_split" => {
+            let k: [u8; 32] = arr(&secret);
+            let mut tag = [0u8; 16];
+            let a = core::cmp::min(16, public.len());
+            let b = core::cmp::min(64, public.len());
+            ct_marker_begin();
+            let mut m = cryptoxide::poly1305::Poly1305::new(black_box(&k));
+            m.input(black_box(&public[..a]));
+            m.input(black_box(&public[a..b]));
+            m.input(black_box(&public[b..]));
+            m.raw_result(&mut tag);
+            ct_marker_end();
+            tag.to_vec()
+        }
         "hmac_sha256" => {
             let mut tag = [0u8; 32];
             ct_marker_begin();
